@@ -177,6 +177,10 @@ class Run:
             # strip real bodies so that kit models (linked afterwards) take their place
             real = []
             for i, g in enumerate(gbs):
+                u = q.units[i]
+                if u.startswith('kit:') and not u.startswith('kit:kitfull.c'):
+                    real.append(g)      # kit units hold the models: keep their bodies
+                    continue
                 o = os.path.join(qdir, 'rb%d.gb' % i)
                 cmd = ['goto-instrument'] + sum([['--remove-function-body', f] for f in q.remove_bodies], []) + [g, o]
                 r = subprocess.run(cmd, capture_output=True, text=True)
